@@ -96,7 +96,23 @@ def run_case(case):
     C = Counter({"calls": 1})
     viol = util.ViolList()
     sp = MODELS[case["model"]]
-    M = specmod.build_model(sp, "ctor")
+    refused_first = (case["seed"] % 4 == 0) and bool(sp["params"])
+    if refused_first:
+        # history: the model is first assembled with one parameter value missing and a species that has no initial condition
+        # (documented default 0); its first initialisation is refused, the value is supplied afterwards, and only then the
+        # lattice calls are made
+        sp = dict(sp, species=list(sp["species"]) + ["Zq"])
+        missing = sorted(sp["params"])[case["seed"] % len(sp["params"])]
+        sp_missing = dict(sp, params={k_: v_ for k_, v_ in sp["params"].items() if k_ != missing})
+        M = specmod.build_model(sp_missing, "ctor", initialize=False)
+        try:
+            py_simulate_model(np.array([0.0, 0.5, 1.0]), Model=M, stochastic=False)
+            return {"viol": [], "counters": {"unspecified_parameter_not_refused": 1}, "nontrivial": False}
+        except Exception:
+            C["refused_first_initialisations"] += 1
+        M.set_parameter(missing, sp["params"][missing])
+    else:
+        M = specmod.build_model(sp, "ctor")
     t0, dt, n = GRIDS[case["grid"]]
     tp = t0 + dt * np.arange(n)
     cur_params = dict(sp["params"])
